@@ -197,10 +197,12 @@ fn judge_rc2(case: &Case, l: &mut Local) {
     l.check("2D isometry -> parameters -> isometry is the identity", "", (back.to_homogeneous() - initial.to_homogeneous()).abs().max() <= 1e-9 * (1.0 + t.norm()), mk, String::new);
 }
 
+const EULERS_JAC3: usize = 7;
+
 fn judge_jac3(case: &Case, l: &mut Local) {
     let mk = || serde_json::to_value(case).unwrap();
     let eulers = [(0.0, 0.0, 0.0), (0.2, -0.3, 0.5), (1.1, 0.9, -2.0), (-0.4, FRAC_PI_2 - 1e-3, 0.7), (2.5, -1.1, 0.3)];
-    let (rx, ry, rz) = eulers[case.i % eulers.len()];
+    let (rx, ry, rz) = eulers[(case.i % EULERS_JAC3).min(eulers.len() - 1)];
     let t = translations()[case.t];
     let rc = centres()[case.rc];
     let lat = [-1.0, 0.5, 2.0];
@@ -214,7 +216,19 @@ fn judge_jac3(case: &Case, l: &mut Local) {
     }
     let normals = [Vector3::new(0.0, 0.0, 1.0), Vector3::new(1.0, 1.0, 1.0), Vector3::new(1.0, -0.5, 0.2), Vector3::new(-1.0, 0.0, 0.3)];
     let initial = Iso3::from_parts(Translation3::from(t), RotationMatrices::from_euler(rx, ry, rz).q);
-    let params = RcParams3::from_initial(&initial, &rc);
+    let mut params = RcParams3::from_initial(&initial, &rc);
+    if case.i % EULERS_JAC3 >= 5 {
+        // poses reached by an update rather than from an initial isometry: the parameter vector then keeps
+        // the angles it was given, including a pitch beyond a quarter turn, and the Jacobians must be the
+        // derivatives with respect to *those* parameters
+        let (ux, uy, uz) = [(0.3, 2.0, -0.4), (-1.0, -2.6, 0.5)][case.i % EULERS_JAC3 - 5];
+        let mut x = *params.x();
+        x[3] = ux;
+        x[4] = uy;
+        x[5] = uz;
+        params.set(&x);
+        l.bucket("pose set with a pitch beyond a quarter turn");
+    }
     let t0i = params.transform().inverse();
     let p = pts[case.j % pts.len()];
     let cpt = pts[case.k % pts.len()];
@@ -492,13 +506,16 @@ pub fn cases(tier: Tier) -> Vec<Case> {
             }
         }
     }
-    for i in 0..5 {
+    for i in 0..7 {
         for t in 0..3 {
             for rc in 0..3 {
                 for j in (0..27).step_by(tier.pick(2, 1)) {
                     for k in (0..27).step_by(tier.pick(5, 2)) {
                         out.push(c("jac3", i, j, k, t, rc));
                     }
+                }
+                if i >= 5 {
+                    continue;
                 }
                 for j in 0..9 {
                     for k in 0..9 {
@@ -534,7 +551,7 @@ pub fn run(tier: Tier) -> i32 {
     let mut cx = Ctx::new("C08", tier, "exploration");
     cx.rule = "Euler alphabet {0, +-0.3, +-1.1, +-2.5, pi, +-pi/2, +-(pi/2 - 1e-9 / 1e-5 / 1e-4 / 1e-3)}: every triple for the rotation matrices, their derivatives and the Euler extraction; every triple x 3 translations (up to 1e3) x 3 rotation centres (up to 1e3 from the origin) for the parameter object , each followed by 3 parameter updates compared with the independent formula p -> rc_d + t + R(e)(p - rc); 2D: 12 angles x translations x centres; Jacobians: 5 poses x translations x centres x lattice test points x lattice surface points x 4 normals, every parameter index against central finite differences; ParamHandler: 2..4 bodies x every static index x with/without initial transforms. distinct = distinct cases".into();
     cx.bounds = json!({"euler_alphabet": euler_alphabet().len(), "translations": 3, "centres": 3, "fd_step": 1e-6});
-    cx.require(&["pitch at or near gimbal lock", "pitch away from gimbal lock", "rotation centre far from the origin", "rotation centre near the origin", "2D parameter object", "offset parallel to the normal", "offset not parallel to the normal", "2D Jacobian probe", "parameter handler layout", "assembled Jacobian at the identity pose", "assembled Jacobian at a large rotation"]);
+    cx.require(&["pitch at or near gimbal lock", "pitch away from gimbal lock", "rotation centre far from the origin", "rotation centre near the origin", "2D parameter object", "offset parallel to the normal", "offset not parallel to the normal", "2D Jacobian probe", "parameter handler layout", "assembled Jacobian at the identity pose", "assembled Jacobian at a large rotation", "pose set with a pitch beyond a quarter turn"]);
     cx.assume("reproduction tolerance 1e-9*(1+|t|+|rc|); isometry<->parameter round trip judged at 1e-9*(1+|t|); Jacobian tolerance 1e-5*lever with central differences h=1e-6, residual kinks (|d| < 1e-3) skipped");
     let cs = cases(tier);
     let l = sweep(&cs, judge);
